@@ -5194,3 +5194,450 @@ func checkSiblingSimulations(p *Program, r *Report, rule string, a, b string) {
 	}
 	r.Violate(rule, key, p.Pos(fb.Pos()), fmt.Sprintf("the two simulations of the empty roots that additions write over disagree on their control structure: %s has %s; %s has %s - one of them stops, caps or returns where the other goes on, so for some forest the update data / the caching schedule misses a destroyed root", a, sa, b, sb), "in "+a+" and "+b)
 }
+
+// ---------------------------------------------------------------------------
+// R15l MARK-EVERY-EMPTIED-ROOT. A block can empty several trees. The function
+// that marks the tracker's root infos as empty writes the flag inside a loop
+// nest over (positions x roots); the outermost loop around the marking store
+// has no way out but its own bound - leaving it at the first hit marks one
+// root per block and loses the others. (An early exit of an inner loop is
+// fine: one position matches at most one root.)
+
+func checkMarkEveryEmptiedRoot(p *Program, r *Report, rule string, name string) {
+	fn := p.Func(name)
+	if fn == nil {
+		r.MissingAnchor(rule, name, "the function that applies a block's deletions to the root infos not found")
+		return
+	}
+	n := 0
+	for _, b := range fn.Blocks {
+		for _, in := range b.Instrs {
+			st, ok := in.(*ssa.Store)
+			if !ok {
+				continue
+			}
+			c, isConst := st.Val.(*ssa.Const)
+			if !isConst || c.Value == nil || c.Value.String() != "true" {
+				continue
+			}
+			fa, ok := st.Addr.(*ssa.FieldAddr)
+			if !ok {
+				continue
+			}
+			if _, viaElem := fa.X.(*ssa.IndexAddr); !viaElem {
+				continue
+			}
+			h := innermostLoopHeader(b)
+			if h == nil {
+				// the store sits on a path that leaves a loop (mark, then break): that is an early exit
+				for q := b; q != nil && h == nil; q = q.Idom() {
+					if hq := innermostLoopHeader(q); hq != nil && hq.Dominates(b) {
+						h = hq
+					}
+				}
+				if h == nil {
+					continue
+				}
+				n++
+				r.Violate(rule, fmt.Sprintf("%s/mark#%d/no-early-exit", name, n), posOf(p, st), "the store that marks a root as emptied sits on a path that leaves the loop around it: after the first hit no other root of the block is marked, and the additions that later overwrite an unmarked empty root are not traced back", "in "+name)
+				continue
+			}
+			// outermost loop containing the store
+			outer := h
+			for _, cand := range fn.Blocks {
+				if cand != outer && len(latches(cand)) > 0 && naturalLoop(cand)[outer] {
+					outer = cand
+				}
+			}
+			n++
+			key := fmt.Sprintf("%s/mark#%d/no-early-exit", name, n)
+			loop := naturalLoop(outer)
+			var early ssa.Instruction
+			for blk := range loop {
+				if blk == outer {
+					continue
+				}
+				for _, s := range blk.Succs {
+					if !loop[s] {
+						// leaving through a return with an error or a panic is not "going on with fewer marks"
+						if len(s.Instrs) > 0 {
+							if _, isPanic := s.Instrs[len(s.Instrs)-1].(*ssa.Panic); isPanic {
+								continue
+							}
+						}
+						early = blk.Instrs[len(blk.Instrs)-1]
+					}
+				}
+			}
+			if early != nil {
+				r.Violate(rule, key, posOf(p, early), "the outermost loop around the store that marks a root as emptied can be left from inside its body: a block that empties several trees marks only the roots met before the exit, and the additions that later overwrite an unmarked empty root are not traced back", "in "+name)
+			} else {
+				r.Discharge(rule, key, posOf(p, st), "the outermost loop around the marking store is left only through its own bound", true)
+			}
+		}
+	}
+	r.Floor(rule, "stores that mark a root as emptied", n, 1)
+}
+
+// ---------------------------------------------------------------------------
+// R13l RESTORE-TAKES-THE-STREAM'S-HEADER. Positions in the stream are in the
+// writer's layout; the restore function of the map forest therefore takes
+// over the header fields it reads (allocated rows, leaf count) as they are:
+// for every field of the receiver that it stores from a value read off the
+// stream, one such store lies on every path to the success return. A field
+// that is only updated when the stream's value is larger (or non-zero, or
+// different) leaves the receiver's old geometry in force for the new nodes.
+
+func checkRestoreTakesHeader(p *Program, r *Report, rule string, name string, floor int) {
+	fn := p.Func(name)
+	if fn == nil {
+		r.MissingAnchor(rule, name, "restore function not found")
+		return
+	}
+	if len(fn.Params) == 0 {
+		return
+	}
+	recv := fn.Params[0]
+	// values read off the stream: loads from a buffer that a stream read filled
+	buffers := map[ssa.Value]bool{}
+	for _, b := range fn.Blocks {
+		for _, in := range b.Instrs {
+			c, ok := in.(*ssa.Call)
+			if !ok {
+				continue
+			}
+			switch ioCallKind(p, c.Common()) {
+			case "fullread", "rawread":
+				for _, a := range c.Common().Args {
+					if base := bufferBase(a); base != nil {
+						buffers[base] = true
+					}
+				}
+			}
+		}
+	}
+	fromStream := func(v ssa.Value) bool {
+		return flowsFrom(v, func(x ssa.Value) bool {
+			u, ok := x.(*ssa.UnOp)
+			if !ok || u.Op != token.MUL {
+				return false
+			}
+			if ia, ok := u.X.(*ssa.IndexAddr); ok {
+				return buffers[bufferBase(ia.X)] || buffers[ia.X]
+			}
+			return false
+		}, 0, map[ssa.Value]bool{}) || flowsFrom(v, func(x ssa.Value) bool {
+			// binary.LittleEndian.Uint64(buf[:])
+			c, ok := x.(*ssa.Call)
+			if !ok {
+				return false
+			}
+			for _, a := range c.Common().Args {
+				if base := bufferBase(a); base != nil && buffers[base] {
+					return true
+				}
+			}
+			return false
+		}, 0, map[ssa.Value]bool{})
+	}
+	stores := map[string][]*ssa.Store{}
+	for _, b := range fn.Blocks {
+		for _, in := range b.Instrs {
+			st, ok := in.(*ssa.Store)
+			if !ok {
+				continue
+			}
+			fa, ok := st.Addr.(*ssa.FieldAddr)
+			if !ok || !isRecvValue(fa.X, recv) {
+				continue
+			}
+			if _, basic := st.Val.Type().Underlying().(*types.Basic); !basic || !fromStream(st.Val) {
+				continue
+			}
+			f := fieldName(fa.X.Type(), fa.Field)
+			stores[f] = append(stores[f], st)
+		}
+	}
+	var fields []string
+	for f := range stores {
+		fields = append(fields, f)
+	}
+	sort.Strings(fields)
+	succ := returnsOf(fn)
+	for _, f := range fields {
+		key := fmt.Sprintf("%s/%s/taken-from-stream", name, f)
+		okAll := false
+		for _, st := range stores[f] {
+			// every return that can follow the store is dominated by it
+			after := reachableBlocks([]*ssa.BasicBlock{st.Block()})
+			dominatesAll := true
+			for _, ret := range succ {
+				if ret.Block() != st.Block() && !after[ret.Block()] {
+					continue
+				}
+				if !(st.Block() == ret.Block() || st.Block().Dominates(ret.Block())) {
+					dominatesAll = false
+				}
+			}
+			if dominatesAll {
+				okAll = true
+			}
+		}
+		if okAll {
+			r.Discharge(rule, key, posOf(p, stores[f][0]), "the field is stored from the value read off the stream on every path that goes on after the read", true)
+		} else {
+			r.Violate(rule, key, posOf(p, stores[f][0]), "the header field "+f+" is taken from the stream only on some paths (under a comparison with what the receiver had): the records that follow are in the writer's geometry and are then filed under the receiver's old one", "in "+name)
+		}
+	}
+	r.Floor(rule, "header fields the restore function stores from the stream", len(fields), floor)
+}
+
+// isRecvValue: v is the receiver parameter, or a load of the variable the
+// receiver is spilled into (go/ssa spills parameters that closures capture).
+func isRecvValue(v ssa.Value, recv *ssa.Parameter) bool {
+	if v == ssa.Value(recv) {
+		return true
+	}
+	u, ok := v.(*ssa.UnOp)
+	if !ok || u.Op != token.MUL {
+		return false
+	}
+	al, ok := u.X.(*ssa.Alloc)
+	if !ok || al.Referrers() == nil {
+		return false
+	}
+	n := 0
+	for _, ref := range *al.Referrers() {
+		if st, ok := ref.(*ssa.Store); ok && st.Addr == ssa.Value(al) {
+			if st.Val != ssa.Value(recv) {
+				return false
+			}
+			n++
+		}
+	}
+	return n > 0
+}
+
+// ---------------------------------------------------------------------------
+// R12i RELEASE-IS-DEFERRED. Every critical section of the map forest calls
+// code the forest does not own: the node store and the leaf index are
+// interfaces the user may implement, serialization writes to the caller's
+// io.Writer and reads from the caller's io.Reader. If such a call panics and
+// the caller recovers, a lock released by a plain call after the section is
+// never released, and every later writer (and, behind it, every reader)
+// blocks for ever. A function that acquires the lock and makes any call
+// inside the section therefore releases it with defer.
+
+func checkReleaseDeferred(p *Program, r *Report, rule string) {
+	isMutexOp := func(cc *ssa.CallCommon) string {
+		f := cc.StaticCallee()
+		if f == nil || f.Pkg == nil || f.Pkg.Pkg.Path() != "sync" {
+			return ""
+		}
+		return f.Name()
+	}
+	n := 0
+	for _, fn := range p.Funcs {
+		if fn.Blocks == nil {
+			continue
+		}
+		acq := map[string][]ssa.Instruction{}
+		deferred := map[string]bool{}
+		otherCalls := 0
+		for _, b := range fn.Blocks {
+			for _, in := range b.Instrs {
+				switch x := in.(type) {
+				case *ssa.Call:
+					switch op := isMutexOp(x.Common()); op {
+					case "Lock", "RLock":
+						acq[op] = append(acq[op], x)
+					case "Unlock", "RUnlock", "TryLock", "TryRLock":
+					default:
+						if _, isB := x.Common().Value.(*ssa.Builtin); !isB {
+							otherCalls++
+						}
+					}
+				case *ssa.Defer:
+					if op := isMutexOp(x.Common()); op == "Unlock" || op == "RUnlock" {
+						deferred[op] = true
+					}
+				}
+			}
+		}
+		for _, kind := range []string{"Lock", "RLock"} {
+			rel := map[string]string{"Lock": "Unlock", "RLock": "RUnlock"}[kind]
+			for i, a := range acq[kind] {
+				n++
+				key := fmt.Sprintf("%s/%s#%d/deferred-release", p.FuncName(fn), kind, i+1)
+				switch {
+				case deferred[rel]:
+					r.Discharge(rule, key, posOf(p, a), "the matching "+rel+" is deferred in the same function", true)
+				case otherCalls == 0:
+					r.Discharge(rule, key, posOf(p, a), "the section makes no call: nothing in it can panic into the caller", true)
+				default:
+					r.Violate(rule, key, posOf(p, a), fmt.Sprintf("the lock taken here is released by a plain call of %s, not by defer, and the section calls other code (the node store and the leaf index are user-implementable interfaces, serialization calls the caller's io.Writer / io.Reader): a panic in there that the caller recovers leaves the lock held, and every later writer - and every reader queued behind it - blocks for ever", rel), "in "+p.FuncName(fn))
+				}
+			}
+		}
+	}
+	r.Floor(rule, "lock acquisitions in the package", n, 12)
+}
+
+// ---------------------------------------------------------------------------
+// R13m MEMO-INVALIDATED. A struct field that memoizes a value computed from
+// the rest of the struct (a method returns the field when it is set and
+// otherwise computes, stores and returns it) has to be reset by every exported
+// method that changes the struct. The size prediction of the pointer forest
+// and anything else derived from the forest's shape would otherwise describe
+// the forest before the last Undo / Prune / restore.
+
+func checkMemoInvalidated(p *Program, r *Report, rule string) {
+	type memo struct {
+		S      *types.Named
+		field  string
+		getter *ssa.Function
+	}
+	recvNamed := func(fn *ssa.Function) *types.Named {
+		rv := fn.Signature.Recv()
+		if rv == nil {
+			return nil
+		}
+		pt, ok := rv.Type().(*types.Pointer)
+		if !ok {
+			return nil
+		}
+		n, _ := pt.Elem().(*types.Named)
+		if n == nil || n.Obj().Pkg() != p.Types {
+			return nil
+		}
+		if _, isStruct := n.Underlying().(*types.Struct); !isStruct {
+			return nil
+		}
+		return n
+	}
+	isZero := func(v ssa.Value) bool {
+		c, ok := v.(*ssa.Const)
+		if !ok {
+			return false
+		}
+		if c.Value == nil {
+			return true
+		}
+		s := c.Value.String()
+		return s == "0" || s == "false"
+	}
+	var memos []memo
+	for _, fn := range p.Funcs {
+		S := recvNamed(fn)
+		if S == nil || fn.Parent() != nil || fn.Blocks == nil || fn.Signature.Results().Len() == 0 {
+			continue
+		}
+		recv := fn.Params[0]
+		fieldOf := func(v ssa.Value) (string, bool) {
+			u, ok := v.(*ssa.UnOp)
+			if !ok || u.Op != token.MUL {
+				return "", false
+			}
+			fa, ok := u.X.(*ssa.FieldAddr)
+			if !ok || !isRecvValue(fa.X, recv) {
+				return "", false
+			}
+			return fieldName(fa.X.Type(), fa.Field), true
+		}
+		tested := map[string]bool{}
+		returned := map[string]bool{}
+		stored := map[string]bool{}
+		for _, b := range fn.Blocks {
+			for _, in := range b.Instrs {
+				switch x := in.(type) {
+				case *ssa.BinOp:
+					if x.Op == token.NEQ || x.Op == token.EQL {
+						if f, ok := fieldOf(x.X); ok && isZero(x.Y) {
+							tested[f] = true
+						}
+						if f, ok := fieldOf(x.Y); ok && isZero(x.X) {
+							tested[f] = true
+						}
+					}
+				case *ssa.Return:
+					for _, rv := range retOperands(x) {
+						if f, ok := fieldOf(rv); ok {
+							returned[f] = true
+						}
+					}
+				case *ssa.Store:
+					if fa, ok := x.Addr.(*ssa.FieldAddr); ok && isRecvValue(fa.X, recv) {
+						if _, isConst := x.Val.(*ssa.Const); !isConst {
+							stored[fieldName(fa.X.Type(), fa.Field)] = true
+						}
+					}
+				}
+			}
+		}
+		for f := range tested {
+			if returned[f] && stored[f] {
+				memos = append(memos, memo{S, f, fn})
+			}
+		}
+	}
+	sort.Slice(memos, func(i, j int) bool {
+		return memos[i].S.Obj().Name()+memos[i].field < memos[j].S.Obj().Name()+memos[j].field
+	})
+	storesTo := func(fn *ssa.Function, S *types.Named, only string, except string) bool {
+		for g := range p.StaticReach(fn) {
+			_ = g
+		}
+		reach := p.StaticReach(fn)
+		reach[fn] = true
+		for g := range reach {
+			for _, b := range g.Blocks {
+				for _, in := range b.Instrs {
+					st, ok := in.(*ssa.Store)
+					if !ok {
+						continue
+					}
+					fa, ok := st.Addr.(*ssa.FieldAddr)
+					if !ok || namedOf(fa.X.Type()) != S {
+						continue
+					}
+					f := fieldName(fa.X.Type(), fa.Field)
+					if only != "" && f == only {
+						return true
+					}
+					if only == "" && f != except {
+						return true
+					}
+				}
+			}
+		}
+		return false
+	}
+	n := 0
+	for _, m := range memos {
+		for _, fn := range p.Funcs {
+			if recvNamed(fn) != m.S || fn == m.getter || fn.Parent() != nil || fn.Object() == nil || !fn.Object().Exported() {
+				continue
+			}
+			if !storesTo(fn, m.S, "", m.field) {
+				continue // does not change the struct
+			}
+			n++
+			key := fmt.Sprintf("%s/%s.%s/invalidated", p.FuncName(fn), m.S.Obj().Name(), m.field)
+			if storesTo(fn, m.S, m.field, "") {
+				r.Discharge(rule, key, p.Pos(fn.Pos()), "the method changes the struct and also stores the memo field "+m.field+" (computed and returned by "+p.FuncName(m.getter)+")", true)
+			} else {
+				r.Violate(rule, key, p.Pos(fn.Pos()), fmt.Sprintf("%s changes fields of %s but nothing it reaches stores %s, the field in which %s memoizes its result: after this method the memo describes the struct as it was before", p.FuncName(fn), m.S.Obj().Name(), m.field, p.FuncName(m.getter)), "in "+p.FuncName(fn))
+			}
+		}
+	}
+	var names []string
+	for _, m := range memos {
+		names = append(names, m.S.Obj().Name()+"."+m.field)
+	}
+	if len(memos) == 0 {
+		r.Discharge(rule, "package/no-memo-field", "-", "no struct field of the package memoizes a computed value (no method returns a field when it is set and otherwise computes, stores and returns it)", false)
+	} else {
+		r.Notes = append(r.Notes, rule+": memo fields found by role: "+strings.Join(names, ", "))
+	}
+	_ = n
+}
